@@ -453,4 +453,194 @@ theorem sortIds_sorted (ids : List Nat) : (sortIds ids).Pairwise (· ≤ ·) := 
     (by intro a b; simp only [Bool.or_eq_true, decide_eq_true_eq]; omega) ids
   simpa [sortIds] using this
 
+
+
+/-! ### `_condense_results`: reading the poses back from the parameter vector -/
+section Condense
+variable {α P : Type}
+
+theorem paramsToStruct_ok (defs : Defs) (x : List α)
+    (hx : x.length = Gen.C09.lenParamVec defs.nBss defs.nCfsInParams) :
+    ∃ bss cfs, paramsToStruct defs x = .ok (bss, cfs) := by
+  simp only [Gen.C09.lenParamVec] at hx
+  simp only [paramsToStruct, reshape, Gen.C09.bsParamCount, List.length_take, List.length_drop]
+  have h1 : min (defs.nBss * Gen.C09.nParamsPerBs) x.length = defs.nBss * Gen.C09.nParamsPerBs := by omega
+  have h2 : x.length - defs.nBss * Gen.C09.nParamsPerBs = defs.nCfsInParams * Gen.C09.nParamsPerCf := by omega
+  simp only [h1, h2, if_true]
+  exact ⟨_, _, rfl⟩
+
+theorem paramsToStruct_cfs (defs : Defs) (params : List α) (bss cfs : List (List α))
+    (h : paramsToStruct defs params = .ok (bss, cfs)) (c : Nat) (hc : c < defs.nCfsInParams) :
+    cfs[c]? = some ((params.drop (Gen.C09.nParamsPerBs * defs.nBss + Gen.C09.nParamsPerCf * c)).take Gen.C09.nParamsPerCf) := by
+  simp only [paramsToStruct] at h
+  cases h1 : reshape defs.nBss Gen.C09.nParamsPerBs (List.take (Gen.C09.bsParamCount defs.nBss) params) with
+  | error e => rw [h1] at h; cases h
+  | ok b1 =>
+    cases h2 : reshape defs.nCfsInParams Gen.C09.nParamsPerCf (List.drop (Gen.C09.bsParamCount defs.nBss) params) with
+    | error e => rw [h1, h2] at h; cases h
+    | ok b2 =>
+      rw [h1, h2] at h
+      simp only [Except.ok.injEq, Prod.mk.injEq] at h
+      obtain ⟨rfl, rfl⟩ := h
+      obtain ⟨_, e2⟩ := reshape_ok _ _ _ _ h2
+      subst e2
+      rw [getElem?_reshapeRows _ _ _ c hc]
+      simp only [List.drop_drop, Gen.C09.bsParamCount]
+      congr 3
+      rw [Nat.mul_comm defs.nBss, Nat.mul_comm c]
+
+theorem condenseCfs_ok (toPose : List α → P) (cfs : List (List α)) (idxs : List Nat) (h : ∀ i ∈ idxs, i < cfs.length) :
+    ∃ l, condenseCfs toPose cfs idxs = .ok l ∧ l.length = idxs.length ∧
+      ∀ (j i : Nat), idxs[j]? = some i → ∃ row, cfs[i]? = some row ∧ l[j]? = some (toPose row) := by
+  induction idxs with
+  | nil => exact ⟨[], rfl, rfl, by simp⟩
+  | cons i r ih =>
+    obtain ⟨l, hl, hlen, hrows⟩ := ih (fun i' hi' => h i' (List.mem_cons_of_mem _ hi'))
+    have hi : i < cfs.length := h i List.mem_cons_self
+    have hrow : cfs[i]? = some cfs[i] := List.getElem?_eq_getElem hi
+    refine ⟨toPose cfs[i] :: l, by simp only [condenseCfs, hrow, hl], by simp [hlen], ?_⟩
+    intro j i' hj
+    cases j with
+    | zero => simp only [List.getElem?_cons_zero, Option.some.injEq] at hj; subst hj; exact ⟨_, hrow, rfl⟩
+    | succ j => simp only [List.getElem?_cons_succ] at hj ⊢; exact hrows j i' hj
+
+theorem condenseBs_spec (toPose : List α → P) (defs : Defs) (S : List Nat) (hS : S.Nodup)
+    (hidx : ∀ k, defs.indexToId.get? k = S[k]?) (rows : List (List α)) (i0 : Nat) (d : Dict P)
+    (hlen : i0 + rows.length ≤ S.length) :
+    ∃ d', condenseBs toPose defs (enumFrom i0 rows) d = .ok d' ∧
+      (∀ j row id, rows[j]? = some row → S[i0 + j]? = some id → d'.get? id = some (toPose row)) ∧
+      (∀ id, (∀ j, j < rows.length → S[i0 + j]? ≠ some id) → d'.get? id = d.get? id) := by
+  induction rows generalizing i0 d with
+  | nil => exact ⟨d, rfl, by simp, fun _ _ => rfl⟩
+  | cons row0 rest ih =>
+    simp only [List.length_cons] at hlen
+    have hi0 : i0 < S.length := by omega
+    have hid0 : S[i0]? = some S[i0] := List.getElem?_eq_getElem hi0
+    obtain ⟨d', hd', ha, hb⟩ := ih (i0 + 1) (d.set S[i0] (toPose row0)) (by omega)
+    have hfresh : ∀ j, j < rest.length → S[i0 + 1 + j]? ≠ some S[i0] := by
+      intro j hj e
+      have := (List.getElem?_inj hi0 hS (j := i0 + 1 + j)).mp (by rw [hid0, e])
+      omega
+    refine ⟨d', by simp only [enumFrom, condenseBs, hidx, hid0]; exact hd', ?_, ?_⟩
+    · intro j row id hj hid
+      cases j with
+      | zero =>
+        simp only [List.getElem?_cons_zero, Option.some.injEq] at hj
+        subst hj
+        simp only [Nat.add_zero, hid0, Option.some.injEq] at hid
+        subst hid
+        rw [hb _ hfresh, Dict.get?_set]; simp
+      | succ j =>
+        simp only [List.getElem?_cons_succ] at hj
+        exact ha j row id hj (by rw [show i0 + 1 + j = i0 + (j + 1) by omega]; exact hid)
+    · intro id hnone
+      have h0 : S[i0] ≠ id := by
+        intro e; exact hnone 0 (by simp) (by simp only [Nat.add_zero, hid0, e])
+      rw [hb id (fun j hj => by
+        have := hnone (j + 1) (by simp only [List.length_cons]; omega)
+        rwa [show i0 + (j + 1) = i0 + 1 + j by omega] at this)]
+      rw [Dict.get?_set]; simp [h0]
+
+end Condense
+/-! ### `_populate_initial_guess`: writing the poses into the parameter vector -/
+section Guess
+variable {α P : Type}
+
+theorem flatten_window (w : Nat) (rows : List (List α)) (hw : ∀ r ∈ rows, r.length = w) (k : Nat) (row : List α)
+    (hk : rows[k]? = some row) : (rows.flatten.drop (k * w)).take w = row := by
+  induction rows generalizing k with
+  | nil => simp at hk
+  | cons r0 rest ih =>
+    have h0 : r0.length = w := hw r0 List.mem_cons_self
+    cases k with
+    | zero =>
+      simp only [List.getElem?_cons_zero, Option.some.injEq] at hk
+      subst hk
+      simp only [Nat.zero_mul, List.drop_zero, List.flatten_cons]
+      rw [List.take_append_of_le_length (by omega), List.take_of_length_le (by omega)]
+    | succ k =>
+      simp only [List.getElem?_cons_succ] at hk
+      simp only [List.flatten_cons]
+      rw [show (k + 1) * w = r0.length + k * w by rw [Nat.succ_mul]; omega, ← List.drop_drop, List.drop_left]
+      exact ih (fun r hr => hw r (List.mem_cons_of_mem _ hr)) k hk
+
+theorem length_flatten_uniform (w : Nat) (rows : List (List α)) (hw : ∀ r ∈ rows, r.length = w) :
+    rows.flatten.length = rows.length * w := by
+  induction rows with
+  | nil => simp
+  | cons r0 rest ih =>
+    simp only [List.flatten_cons, List.length_append, List.length_cons,
+      ih (fun r hr => hw r (List.mem_cons_of_mem _ hr)), hw r0 List.mem_cons_self, Nat.succ_mul]
+    omega
+
+theorem uniform_set (w : Nat) (rows : List (List α)) (hw : ∀ r ∈ rows, r.length = w) (k : Nat) (v : List α) (hv : v.length = w) :
+    ∀ r ∈ rows.set k v, r.length = w := by
+  intro r hr
+  rcases List.mem_or_eq_of_mem_set hr with h | h
+  · exact hw r h
+  · rw [h]; exact hv
+
+theorem fillBs_spec (toParams : P → List α) (w : Nat) (hp : ∀ p, (toParams p).length = w) (defs : Defs)
+    (hinj : ∀ b b' k, defs.idToIndex.get? b = some k → defs.idToIndex.get? b' = some k → b = b')
+    (d : Dict P) (hn : d.keys.Nodup) (rows : List (List α)) (hw : ∀ r ∈ rows, r.length = w)
+    (hidx : ∀ b ∈ d.keys, ∃ k, defs.idToIndex.get? b = some k ∧ k < rows.length) :
+    ∃ rows', fillBs toParams defs d rows = .ok rows' ∧ rows'.length = rows.length ∧ (∀ r ∈ rows', r.length = w) ∧
+      (∀ b p k, (b, p) ∈ d → defs.idToIndex.get? b = some k → rows'[k]? = some (toParams p)) ∧
+      (∀ k, (∀ b ∈ d.keys, defs.idToIndex.get? b ≠ some k) → rows'[k]? = rows[k]?) := by
+  induction d generalizing rows with
+  | nil => exact ⟨rows, rfl, rfl, hw, by simp, fun _ _ => rfl⟩
+  | cons kv r ih =>
+    obtain ⟨b0, p0⟩ := kv
+    simp only [Dict.keys, List.map_cons, List.nodup_cons] at hn
+    obtain ⟨k0, hk0, hk0lt⟩ := hidx b0 (by simp [Dict.keys])
+    obtain ⟨rows', hr', hlen', hw', ha, hb⟩ := ih hn.2 (rows.set k0 (toParams p0)) (uniform_set w rows hw k0 _ (hp p0))
+      (by intro b hb; obtain ⟨k, h1, h2⟩ := hidx b (by simp only [Dict.keys, List.map_cons, List.mem_cons]; exact Or.inr hb)
+          exact ⟨k, h1, by simpa using h2⟩)
+    refine ⟨rows', by simp only [fillBs, hk0, hk0lt, if_true]; exact hr', by simpa using hlen', hw', ?_, ?_⟩
+    · intro b p k hmem hk
+      rcases List.mem_cons.mp hmem with e | hmem'
+      · simp only [Prod.mk.injEq] at e
+        obtain ⟨rfl, rfl⟩ := e
+        rw [hk0] at hk; cases hk
+        rw [hb k0 ?_, List.getElem?_set]
+        · simp [hk0lt]
+        · intro b' hb' e
+          have := hinj b' b k0 e hk0
+          subst this; exact hn.1 hb'
+      · exact ha b p k hmem' hk
+    · intro k hnone
+      have hne : k0 ≠ k := by
+        rintro rfl; exact hnone b0 (by simp [Dict.keys]) hk0
+      rw [hb k (fun b hb' => hnone b (by simp only [Dict.keys, List.map_cons, List.mem_cons]; exact Or.inr hb')),
+        List.getElem?_set]
+      simp [hne]
+
+theorem fillCfs_spec (toParams : P → List α) (w : Nat) (hp : ∀ p, (toParams p).length = w) (ps : List P) (i0 : Nat)
+    (rows : List (List α)) (hw : ∀ r ∈ rows, r.length = w) (hlen : i0 + ps.length ≤ rows.length) :
+    ∃ rows', fillCfs toParams i0 ps rows = .ok rows' ∧ rows'.length = rows.length ∧ (∀ r ∈ rows', r.length = w) ∧
+      (∀ j p, ps[j]? = some p → rows'[i0 + j]? = some (toParams p)) ∧ (∀ k, k < i0 → rows'[k]? = rows[k]?) := by
+  induction ps generalizing i0 rows with
+  | nil => exact ⟨rows, rfl, rfl, hw, by simp, fun _ _ => rfl⟩
+  | cons p0 r ih =>
+    simp only [List.length_cons] at hlen
+    have hi0 : i0 < rows.length := by omega
+    obtain ⟨rows', hr', hlen', hw', ha, hb⟩ := ih (i0 + 1) (rows.set i0 (toParams p0)) (uniform_set w rows hw i0 _ (hp p0))
+      (by simp only [List.length_set]; omega)
+    refine ⟨rows', by simp only [fillCfs, hi0, if_true]; exact hr', by simpa using hlen', hw', ?_, ?_⟩
+    · intro j p hj
+      cases j with
+      | zero =>
+        simp only [List.getElem?_cons_zero, Option.some.injEq] at hj
+        subst hj
+        rw [Nat.add_zero, hb i0 (by omega), List.getElem?_set]; simp [hi0]
+      | succ j =>
+        simp only [List.getElem?_cons_succ] at hj
+        rw [show i0 + (j + 1) = i0 + 1 + j by omega]; exact ha j p hj
+    · intro k hk
+      rw [hb k (by omega), List.getElem?_set]
+      have : i0 ≠ k := by omega
+      simp [this]
+
+end Guess
+
 end CfVerif.C09
